@@ -39,11 +39,12 @@ def shape(plan):
     return "nested" if depth(plan) > 2 else "grouped"
 
 
-def canon_expect(e):
+def canon_expect(e, any_proof=False):
     if e.get("err"):
         return None
     return {"ins": sorted([[i["v"], i["r"]] for i in e["ins"]], key=json.dumps),
-            "outs": sorted([[o["v"], o["r"], o["cb"]] for o in e["outs"]], key=json.dumps),
+            "outs": sorted([[o["v"], o["r"], o["cb"]] + ([o["pv"]] if o.get("pv") and not any_proof else [])
+                            for o in e["outs"]], key=json.dumps),
             "kerns": sorted(e["kerns"]), "off": e["off"]}
 
 
@@ -56,8 +57,8 @@ def canon_real(p, with_off=True, any_proof=False):
     """any_proof: the family creates a commitment with several valid proofs; the one carried is left free"""
     outs = []
     for o in p["outs"]:
-        if any_proof and len(o) == 5 and o[0] != "?" and o[3] is False:
-            outs.append(o[:3])
+        if len(o) == 5 and o[0] != "?" and o[3] is False:
+            outs.append(o[:3] if any_proof else o[:3] + [o[4]])     # [v, r, cb, variant of the proof carried]
         elif len(o) != 4 or o[0] == "?" or o[3] is not True:
             outs.append(["?"] + o)      # unknown commitment or not the proof the output was created with
         else:
@@ -133,7 +134,7 @@ def judge(c, r, viol, counts, obs=None):
     ag = c["aggregable"]
     lab = family_label(c)
     sfx = shape_suffix(c)
-    want = canon_expect(c["expect"])            # None: the family has no aggregate (refused shape)
+    want = canon_expect(c["expect"], pvf)       # None: the family has no aggregate (refused shape)
     if (want is None) == ag:
         raise ToolError("Agg case inconsistent: aggregable=%s expect=%s" % (ag, c["expect"]))
     if not r["operands_ok"]:
@@ -234,7 +235,7 @@ def judge(c, r, viol, counts, obs=None):
     if ag:
         br = r["block"]
         b = c["block"]
-        bwant = canon_expect(b["expect"])
+        bwant = canon_expect(b["expect"], pvf)
         bwant.pop("off")
         flat_plan = list(range(1, n + 1))
         build_plans = [flat_plan] + [c["plans"][i] for i in c.get("builds", [])]
@@ -295,7 +296,7 @@ def judge(c, r, viol, counts, obs=None):
                     {"grouping": plan, "block_built_from": build_plans[br.get("ref", 0)],
                      "block_proofs": proof_choice(br["proj"]), "hydrated_proofs": proof_choice(h["proj"])})
             elif not h["same_body"]:
-                hp = canon_real(h["proj"], with_off=False) if "proj" in h else {}
+                hp = canon_real(h["proj"], with_off=False, any_proof=pvf) if "proj" in h else {}
                 viol("agg:hydrate:body_differs:%s:%s%s" % (diff_field(bwant, hp), sh, sfx),
                      "hydrated block body is not the block's body", {"grouping": plan, "want": bwant, "got": hp})
             elif not h["same_hash"]:
